@@ -301,9 +301,54 @@ def run(scn) -> RunResult:
                             f"{len(image) if image is not None else None} bytes of {len(new_image)}; old={len(old_image)} "
                             f"bytes; loaded {o} {v!r}; replay with points=[[{'"ser"' if in_ser else k}, {torn if torn else 'null'}]]"[:600])
         res.probes["crash_points"] += len(points)
+        if not scn.get("points"):
+            h.update(_failed_save_then_save(scn, res, later_write=bool(scn.get("write_limit"))).encode())
     res.digest = h.hexdigest()
     res.nontrivial_key = ("C15", scn["old"], scn["new"], scn.get("write_limit"))
     return res
+
+
+def _failed_save_then_save(scn, res, later_write=False) -> str:
+    """One Persistence object: the old registry is saved; the save of the new registry FAILS with an I/O error in the
+    middle of its writes (remains of it are on the disk); the registry goes back to the old one and is saved again -
+    successfully.  The file must now load to the old registry: "the registry as last successfully saved" may not be
+    lost behind a save that the library reported as done."""
+    pw = PWorld(scn.get("tapes"))
+    try:
+        pw.disk.write_limit = scn.get("write_limit")
+        nodes = dict(build_nodes(scn["old"]))
+        want = snapshot(nodes)
+        p = Persistence(nodes, PATH)
+        k0, v0 = pw.run(p.save())
+        nodes.clear()
+        nodes.update(build_nodes(scn["new"]))
+        pw.disk.fault_on["write"] = ([0] if later_write else []) + ["ENOSPC"]
+        k1, v1 = pw.run(p.save())
+        pw.disk.fault_on.clear()
+        nodes.clear()
+        nodes.update(build_nodes(scn["old"]))
+        k2, v2 = pw.run(p.save())
+        res.probes["save_after_failed_save"] += 1
+        if k0 != "ok" or k2 != "ok":
+            res.violate(PROP, "save-after-failed-save", f"save-raised:{type(v2 or v0).__name__}", repr(v2 or v0)[:200])
+            return pw.elog.digest()
+        if k1 == "ok" and later_write:
+            # the whole image went out in one raw write: let the first write fail instead
+            pw.close()
+            pw = None
+            return _failed_save_then_save(scn, res, later_write=False)
+        loaded: dict = {}
+        o, v = pw.run(Persistence(loaded, PATH).load())
+        if o != "ok":
+            res.violate(PROP, "save-after-failed-save", "file-unreadable-after-successful-save",
+                        f"{v!r}; the failed save left {len(pw.disk.image(PATH) or b'')} bytes"[:300])
+        elif snapshot(loaded) != want:
+            res.violate(PROP, "save-after-failed-save", "other-registry-after-successful-save",
+                        f"want {sorted(want)} got {sorted(snapshot(loaded))}")
+        return pw.elog.digest()
+    finally:
+        if pw is not None:
+            pw.close()
 
 
 def simplify(scn):
